@@ -136,12 +136,28 @@ fn main() {
     ];
     let mut lib: Vec<(String, Vec<u8>)> = vec![("t:producer".into(), component("producer")), ("t:consumer".into(), component("consumer")), ("t:app".into(), component("app")), ("t:chain".into(), component("chain")), ("t:chain2".into(), component("chain2"))];
     for (i, b) in shaped.iter().enumerate() { lib.push((format!("t:shaped{i}"), b.clone())); }
+    // already composed components: sub-components that embed core modules, with import / export sections after them
+    {
+        let base = lib.clone();
+        let mut packages: IndexMap<BorrowedPackageKey, Vec<u8>> = IndexMap::new();
+        for (n, b) in &base { packages.insert(BorrowedPackageKey::from_name_and_version(n, None), b.clone()); }
+        for (k, src) in ["package test:doc;\nlet p = new t:producer { };\nlet c = new t:consumer { shapes: p.shapes };\nexport p.shapes;\nexport c.render;\n",
+                         "package test:doc;\nlet c = new t:consumer { ... };\nlet a = new t:app { render: c.render, ... };\nexport a.run;\nexport a.ping;\nexport c.render;\n"].iter().enumerate() {
+            let doc = Document::parse(src).unwrap();
+            let bytes = doc.resolve(packages.clone()).unwrap().encode(wac_graph::EncodeOptions { define_components: true, validate: true, processor: None }).unwrap();
+            lib.push((format!("t:composed{k}"), bytes));
+        }
+    }
     let (mut items, mut wrappers) = (0u64, 0u64);
     let mut samples = vec![];
     // ---- (1) the decoded world against wasmparser's own reading of the component
     for (name, bytes) in &lib {
         let mut types = Types::default();
-        let pkg = Package::from_bytes(name, None, bytes.clone(), &mut types).unwrap();
+        let pkg = match std::panic::catch_unwind(std::panic::AssertUnwindSafe(|| Package::from_bytes(name, None, bytes.clone(), &mut types))) {
+            Ok(Ok(p)) => p,
+            Ok(Err(e)) => { println!("C08-BOUNDED VIOLATION: package {name}: a valid component is not decoded ({e:#})"); std::process::exit(1) }
+            Err(_) => { println!("C08-BOUNDED VIOLATION: package {name}: Package::from_bytes PANICKED on a valid component ({})", LAST_PANIC.with(|l| l.borrow().clone())); std::process::exit(1) }
+        };
         let world = &types[pkg.ty()];
         let wt = wasmparser::Validator::new_with_features(wasmparser::WasmFeatures::all()).validate_all(bytes).unwrap();
         // names in order, from the binary's import / export sections
